@@ -121,8 +121,11 @@ impl USpell {
         let mut m = crate::tool::Mirror::new();
         for (w, p) in &self.factors {
             let u = &v.units[w.unit];
-            m.insert(u.key(), (*p, w.prefix + u.bias));
+            // the same word may be written twice (`km^2 km^-1`): its powers add up
+            let e = m.entry(u.key()).or_insert((0, w.prefix + u.bias));
+            e.0 += *p;
         }
+        m.retain(|_, (p, _)| *p != 0);
         m
     }
     /// Some base dimension cancels inside the spelling.
